@@ -432,7 +432,7 @@ theorem affAll_lprim {c c' : Cell} {lab : Lab} (hc : AffAll c) (hp : LPrim lab c
       rcases mem_updApp.mp hx with ⟨hx, _⟩ | ⟨rfl, _⟩
       · exact ⟨x, hx, rfl, rfl, Or.inl rfl⟩
       · exact ⟨a, app?_mem ha, rfl, rfl, Or.inr rfl⟩
-  | @tree _ t hsk =>
+  | @tree _ t hsk _ =>
     obtain ⟨e1, e2, e3⟩ := views_of_skel hsk
     refine affAll_congr hc hc.cap e1 e2 ?_ (fun s' hs' => ⟨s', hs', rfl, rfl⟩) (fun _ => Iff.rfl)
       (fun _ _ _ => rfl) (fun x hx => ⟨x, hx, rfl, rfl, Or.inl rfl⟩)
